@@ -122,3 +122,31 @@ func (i *interpreter) genericCopy(dst, src value) value {
 	}
 	panic(engineError{"io.Copy: more than 4096 rounds"})
 }
+
+// genericReadAll is io.ReadAll over an ordinary interpreted reader.
+func (i *interpreter) genericReadAll(r iface) value {
+	var out []value
+	for rounds := 0; rounds < 4096; rounds++ {
+		buf := make([]value, 16)
+		for k := range buf {
+			buf[k] = uint8(0)
+		}
+		res, ok := i.callMethod(r, "Read", buf)
+		if !ok {
+			panic(engineError{"io.ReadAll: reader without Read"})
+		}
+		tup := res.(tuple)
+		n, okn := tup[0].(int)
+		if !okn {
+			panic(engineError{"io.ReadAll: symbolic read length"})
+		}
+		out = append(out, buf[:n]...)
+		if e, ok := tup[1].(iface); ok && e.t != nil {
+			if str, ok := i.callStringMethod(e); ok && str == "EOF" {
+				return tuple{out, iface{}}
+			}
+			return tuple{out, e}
+		}
+	}
+	panic(engineError{"io.ReadAll: more than 4096 rounds"})
+}
